@@ -279,6 +279,16 @@ class Lexer:
             if self.read() == "\\" and self.read(2).isprintable():
                 value = self.read(2)
                 self.pos += 2
+                # Octal (\123) and hexadecimal (\x7f) escape sequences may
+                # contain additional digits.
+                if value[1] in "01234567":
+                    while len(value) < 4 and self.read() in list("01234567"):
+                        value += self.read()
+                        self.pos += 1
+                elif value[1] == "x":
+                    while self.read() in list("0123456789abcdefABCDEF"):
+                        value += self.read()
+                        self.pos += 1
             elif self.read().isprintable():
                 value = self.read()
                 self.pos += 1
@@ -2003,7 +2013,7 @@ class ExpressionEvaluator(Parser):
         # Convert from character literals to integer value.
         try:
             constant = self.match_type(CharacterConstant)
-            return np.int64(ord(constant.token))
+            return np.int64(self.__character_value(constant.token))
         except ParseError:
             self.pos = initial_pos
 
@@ -2026,6 +2036,35 @@ class ExpressionEvaluator(Parser):
             "Expected integer constant, character constant, identifier or "
             + "function call.",
         )
+
+    @staticmethod
+    def __character_value(token):
+        """
+        Return the integer value of the character constant spelled `token`
+        (without the enclosing quotes), decoding escape sequences.
+        """
+        if not token.startswith("\\"):
+            return ord(token)
+        escapes = {
+            "a": 7,
+            "b": 8,
+            "f": 12,
+            "n": 10,
+            "r": 13,
+            "t": 9,
+            "v": 11,
+        }
+        if token[1] in "01234567":
+            value = int(token[1:], 8)
+        elif token[1] == "x":
+            value = int(token[2:], 16)
+        elif token[1] in escapes:
+            value = escapes[token[1]]
+        else:
+            value = ord(token[1])
+        # Plain char is signed: values above 127 are negative.
+        value &= 0xFF
+        return value - 256 if value > 127 else value
 
     def primary(self):
         """
